@@ -18,6 +18,9 @@ import (
 
 var registry []*Rule
 
+// tierThorough widens the entry sets of cone-based rules to every package of the module.
+var tierThorough bool
+
 func register(r *Rule) { registry = append(registry, r) }
 
 func rulesFor(prop, tier string) []*Rule {
@@ -83,6 +86,7 @@ func main() {
 		fmt.Print(p.genRoles(names))
 		return
 	}
+	tierThorough = *tier == "thorough"
 	start := time.Now()
 	seed := 0
 	if s := os.Getenv("VERIF_SEED"); s != "" {
